@@ -49,13 +49,16 @@ class Contract(object):
             # a loop of a larger function, extracted mechanically on every run: its free variables are the declared parameters,
             # its result the declared live-out variables; everything of the enclosing function outside the statement is dropped
             self.node.args.args = [ast.arg(arg=p, annotation=None) for p in self.params]
+            head = getattr(self.cls, "fragment_head", None)
+            if head is not None and getattr(self.node, "first_text", None) is not None and norm_stmt(head) != self.node.first_text:
+                raise KeyError("fragment of %s no longer starts with %r (found %r)" % (self.target, head, self.node.first_text))
             outs = tuple(getattr(self.cls, "fragment_result", ()))
             ret = ast.Return(value=ast.Tuple(elts=[ast.Name(id=o, ctx=ast.Load()) for o in outs], ctx=ast.Load()))
-            last = self.node.body[0]
+            last = self.node.body[-1]
             for n in ast.walk(ret):
                 n.lineno, n.col_offset = last.end_lineno + 1, 0
                 n.end_lineno, n.end_col_offset = last.end_lineno + 1, 1
-            self.node.body = [self.node.body[0], ret]
+            self.node.body = list(self.node.body) + [ret]
             self.clsnode = None
         smod = sys.modules[self.cls.__module__]
         self.spec_mod = _spec_module_info(smod)
